@@ -28,6 +28,30 @@ theorem unmarshal_no_trailing (b : Bytes) (v : Item) (h : unmarshalRaw b = some 
   · rename_i x heq; simp at h; rw [heq, h]
   · simp at h
 
+
+/-- **Declared lengths at or above the limit are rejected**, whatever follows the head: a byte
+string, text string, array or map whose head declares `maxLen` (= MaxArrayDecodeLength) or more
+bytes / items / pairs is never decoded — in particular not a map declaring 2⁶³ pairs, whose doubled
+item count wraps around to 0 in 64-bit arithmetic (accepted as an empty map by the tree as found;
+repaired). -/
+theorem over_limit_rejected (f d : Nat) (b : Bytes) (mt ai arg : Nat) (r : Bytes)
+    (hh : decHead b = some (mt, ai, arg, r)) (hmt : mt = 2 ∨ mt = 3 ∨ mt = 4 ∨ mt = 5) (hlen : maxLen ≤ arg) :
+    decode f d b = none := by
+  cases f with
+  | zero => unfold decode; rfl
+  | succ f =>
+    unfold decode
+    simp only [hh]
+    rcases hmt with h | h | h | h <;> subst h
+    · simp; intro h1; exact absurd hlen (by omega)
+    · simp; intro h1; exact absurd hlen (by omega)
+    · simp; intro h1; exact absurd hlen (by omega)
+    · simp; intro h1 h2; exact absurd hlen (by omega)
+
+/-- the instance that was accepted before the repair: a map head declaring 2⁶³ pairs -/
+example : decode1 [0xbb, 0x80, 0, 0, 0, 0, 0, 0, 0] = none :=
+  over_limit_rejected _ _ _ 5 27 (2 ^ 63) [] (by decide) (by decide) (by decide)
+
 /-- The model's length limit is the constant the code was compiled with (regenerated table). -/
 theorem gen_maxLen_eq : Fdo.Gen.Cbor.maxArrayDecodeLength = maxLen := by decide
 
